@@ -441,6 +441,41 @@ func runC11(c *Ctx) {
 			c.Count("render:suffix-operator")
 		}
 	}
+	// every operator means what it says: one witness per operator whose value tells it from the other
+	// operators of its level (and from its neighbours)
+	for _, w := range []struct{ src, want string }{
+		{"false implies false", "ok:[B:true]"}, {"true implies false", "ok:[B:false]"}, {"true or false", "ok:[B:true]"}, {"true xor true", "ok:[B:false]"}, {"true xor false", "ok:[B:true]"}, {"true and false", "ok:[B:false]"},
+		{"1 = 1", "ok:[B:true]"}, {"1 != 1", "ok:[B:false]"}, {"1 < 1", "ok:[B:false]"}, {"1 <= 1", "ok:[B:true]"}, {"1 > 1", "ok:[B:false]"}, {"1 >= 1", "ok:[B:true]"}, {"2 > 1", "ok:[B:true]"}, {"1 < 2", "ok:[B:true]"},
+		{"1 + 2", "ok:[I:3]"}, {"3 - 1", "ok:[I:2]"}, {"'a' & 'b'", "ok:[S:x6162]"}, {"'a' & {}", "ok:[S:x61]"}, {"{} & 'b'", "ok:[S:x62]"}, {"'a' + {}", "ok:[]"}, {"'a' + 'b'", "ok:[S:x6162]"},
+		{"2 * 3", "ok:[I:6]"}, {"6 / 4", "ok:[D:15e-1]"}, {"7 div 2", "ok:[I:3]"}, {"7 mod 2", "ok:[I:1]"}, {"7 div 7", "ok:[I:1]"}, {"7 mod 7", "ok:[I:0]"},
+		{"1 is Integer", "ok:[B:true]"}, {"1 is String", "ok:[B:false]"}, {"(1 as Integer) = 1", "ok:[B:true]"}, {"(1 as String).empty()", "ok:[B:true]"}, {"-(1) = 0 - 1", "ok:[B:true]"}, {"+1 = 1", "ok:[B:true]"}, {"-1 * 2", "ok:[I:-2]"},
+		{"-1073741824 * 2", "ok:[I:-2147483648]"}, {"(-1073741824) * 2", "ok:[I:-2147483648]"}, {"-(1073741824 * 2)", "ok:[]"}, {"-7 div 2", "ok:[I:-3]"}, {"-7 mod 2", "ok:[I:-1]"}, {"-6 / 4", "ok:[D:-15e-1]"},
+		{"Patient.name[0].given[1]", "ok:[F(String)S:x62]"}, {"Patient.name.given[1]", "ok:[F(String)S:x62]"}, {"(Patient.name.given)[2]", "ok:[F(String)S:x63]"}, {"-Patient.name.count()", "ok:[I:-2]"},
+	} {
+		o := compileEval(w.src, input)
+		got := outTokens(o)
+		c.Observe("operator "+w.src, true)
+		c.Law(got == w.want, "C11/operator-meaning", "every operator token is compiled to its own operation (and polarity binds tighter than the binary operators)", w.src, got+" want "+w.want)
+	}
+	// whitespace, newlines and comments before the first and after the last token change nothing, and
+	// String() returns the source as it was given
+	for _, body := range []string{"1 + 2", "Patient.name.given", "true and false", "'a' & 'b'"} {
+		base := canonOutcome(compileEval(body, input), nil)
+		for _, pre := range []string{"", " ", "\n", "\t", "/* c */", "// c\n", "\r\n"} {
+			for _, post := range []string{"", " ", "\n", "\n\n", "\r\n", "\t", " /* c */", " // c", " // c\n", "/* c */\n"} {
+				src := pre + body + post
+				e, err := fhirpath.Compile(src)
+				c.Observe("edge decoration "+fmt.Sprintf("%q", src), true)
+				if err != nil {
+					c.Law(false, "C11/same-outcome", "decorations around the expression never change the outcome", fmt.Sprintf("%q", src), "compile error: "+err.Error())
+					continue
+				}
+				o := safeEval(func() (system.Collection, error) { return e.Evaluate(input) })
+				c.Law(canonOutcome(o, nil) == base, "C11/same-outcome", "decorations around the expression never change the outcome", fmt.Sprintf("%q", src), canonOutcome(o, nil)+" vs "+base)
+				c.Law(e.String() == src, "C11/string", "Expression.String() returns the source text", fmt.Sprintf("%q", src), fmt.Sprintf("%q", e.String()))
+			}
+		}
+	}
 	for _, src := range c11Fused {
 		c.Emit("syn "+hexs(src), synDump(src), true)
 		c.Count("render:fused-tokens")
